@@ -59,7 +59,7 @@ pub enum DiffMonths {
 /// `Date::diff_months` on a raw date.
 #[must_use]
 pub fn diff_months(ymd: Ymd, months: i64) -> Option<DiffMonths> {
-	Some(match mk(ymd)?.diff_months(months) {
+	Some(match mk(ymd)?.diff_months(months, &crate::interrupt::Never) {
 		Ok(d) => DiffMonths::Date(raw(d)),
 		Err(crate::error::FendError::NonExistentDate {
 			year,
